@@ -3,6 +3,7 @@ package main
 import (
 	"encoding/hex"
 	"fmt"
+	"strings"
 )
 
 // judge:C06 — param is the hex of the HTML that the CommonMark 0.30 mapping assigns to the document
@@ -12,9 +13,10 @@ func judgeC06(in []byte, param string, _ int) string {
 	if err != nil {
 		return "C06-bad-param"
 	}
-	got := render(in, false)
-	if norm(got) != norm(string(want)) {
-		return fmt.Sprintf("C06-html got %q want %q", norm(got), norm(string(want)))
+	got := strings.TrimSpace(norm(render(in, false)))
+	exp := strings.TrimSpace(norm(string(want)))
+	if got != exp {
+		return fmt.Sprintf("C06-html got %q want %q", got, exp)
 	}
 	return ""
 }
